@@ -71,6 +71,10 @@ func main() {
 		err = core.RunWire(w, *seed, *tier, *replay)
 	case "pubsub":
 		err = core.RunPubSub(w, *seed, *tier, *replay)
+	case "evict":
+		err = core.RunEvict(w, *seed, *tier, *replay)
+	case "evict-child":
+		err = core.RunEvictChild(w, *replay, int(*seed))
 	case "gen-facts":
 		err = core.GenFacts(*leanDir)
 	default:
